@@ -18,7 +18,7 @@ import (
 type src struct {
 	name     string
 	blocking bool // continues with later additions and ends with EOF on Close
-	fresh    func(pre int) (next func() fun.Producer[int], add func(v int), remove func() bool, closeFn func(), expect func(pre int, adds []int) []int)
+	fresh    func(pre int) (next func() fun.Producer[int], add func(v int), remove func() (int, bool), closeFn func(), expect func(pre int, adds []int) []int)
 }
 
 func seqN(n int) []int {
@@ -41,8 +41,8 @@ func fwdExpect(pre int, adds []int) []int { return append(seqN(pre), adds...) }
 func revExpect(pre int, adds []int) []int { return append(rev(seqN(pre)), adds...) }
 
 func sources() []src {
-	queue := func(viaIterator bool) func(int) (func() fun.Producer[int], func(int), func() bool, func(), func(int, []int) []int) {
-		return func(pre int) (func() fun.Producer[int], func(int), func() bool, func(), func(int, []int) []int) {
+	queue := func(viaIterator bool) func(int) (func() fun.Producer[int], func(int), func() (int, bool), func(), func(int, []int) []int) {
+		return func(pre int) (func() fun.Producer[int], func(int), func() (int, bool), func(), func(int, []int) []int) {
 			q := pubsub.NewUnlimitedQueue[int]()
 			for _, v := range seqN(pre) {
 				_ = q.Add(v)
@@ -53,11 +53,11 @@ func sources() []src {
 				}
 				return q.Producer()
 			}
-			return mk, func(v int) { _ = q.Add(v) }, func() bool { _, ok := q.Remove(); return ok }, func() { _ = q.Close() }, fwdExpect
+			return mk, func(v int) { _ = q.Add(v) }, q.Remove, func() { _ = q.Close() }, fwdExpect
 		}
 	}
-	deque := func(kind string) func(int) (func() fun.Producer[int], func(int), func() bool, func(), func(int, []int) []int) {
-		return func(pre int) (func() fun.Producer[int], func(int), func() bool, func(), func(int, []int) []int) {
+	deque := func(kind string) func(int) (func() fun.Producer[int], func(int), func() (int, bool), func(), func(int, []int) []int) {
+		return func(pre int) (func() fun.Producer[int], func(int), func() (int, bool), func(), func(int, []int) []int) {
 			q := pubsub.NewUnlimitedDeque[int]()
 			for _, v := range seqN(pre) {
 				_ = q.PushBack(v)
@@ -79,9 +79,9 @@ func sources() []src {
 				mk, reverse = func() fun.Producer[int] { return q.IteratorReverse().ReadOne }, true
 			}
 			if reverse {
-				return mk, func(v int) { _ = q.PushFront(v) }, func() bool { _, ok := q.PopBack(); return ok }, func() { _ = q.Close() }, revExpect
+				return mk, func(v int) { _ = q.PushFront(v) }, q.PopBack, func() { _ = q.Close() }, revExpect
 			}
-			return mk, func(v int) { _ = q.PushBack(v) }, func() bool { _, ok := q.PopFront(); return ok }, func() { _ = q.Close() }, fwdExpect
+			return mk, func(v int) { _ = q.PushBack(v) }, q.PopFront, func() { _ = q.Close() }, fwdExpect
 		}
 	}
 	return []src{
@@ -171,13 +171,19 @@ func grow(s src, pre, nAdds, n int, release string) vs.Scenario {
 				for _, v := range adds {
 					add(v)
 				}
+				if release == "close-now" {
+					// no pause between the last addition and Close
+					closeFn()
+				}
 				fin <- struct{}{}
 			}()
 			vs.Quiesce()
 			for i := range recs {
 				quiet[i] = append([]int(nil), recs[i].got...)
 			}
-			if release == "close" {
+			if release == "close-now" {
+				// already closed by the mutator
+			} else if release == "close" {
 				closeFn()
 			} else {
 				for _, c := range cancels {
@@ -202,7 +208,11 @@ func grow(s src, pre, nAdds, n int, release string) vs.Scenario {
 				if !isPrefix(rec.got, want) {
 					return "order-or-duplicate", fmt.Sprintf("%s iterator %d yielded %v, container order is %v", s.name, i, rec.got, want)
 				}
-				if s.blocking {
+				if s.blocking && release == "close-now" {
+					if rec.done && errors.Is(rec.err, io.EOF) && len(rec.got) < len(want) {
+						return "eof-before-items-added-before-close", fmt.Sprintf("%s iterator %d finished with io.EOF having yielded %v; %v were all added before Close", s.name, i, rec.got, want)
+					}
+				} else if s.blocking {
 					if quiet[i] != nil && len(quiet[i]) < len(want) {
 						return "blocked-with-unseen-item", fmt.Sprintf("%s iterator %d had yielded %v at quiescence, expected all of %v", s.name, i, quiet[i], want)
 					}
@@ -214,7 +224,7 @@ func grow(s src, pre, nAdds, n int, release string) vs.Scenario {
 				return "not-released-by-" + release + "/" + t, d
 			}
 			for i, rec := range recs {
-				if release == "close" || !s.blocking {
+				if release == "close" || release == "close-now" || !s.blocking {
 					if !errors.Is(rec.err, io.EOF) {
 						return "no-eof-after-close", fmt.Sprintf("%s iterator %d ended with %v", s.name, i, rec.err)
 					}
@@ -235,6 +245,7 @@ func churn(s src, pre int, script string) vs.Scenario {
 	return func() (func(), func(*vs.End) (string, string)) {
 		rec := &itRec{}
 		ever := map[int]bool{}
+		closed := false
 		body := func() {
 			mk, add, remove, closeFn, _ := s.fresh(pre)
 			for _, v := range seqN(pre) {
@@ -260,20 +271,24 @@ func churn(s src, pre int, script string) vs.Scenario {
 				for _, c := range script {
 					switch c {
 					case 'r':
-						remove()
+						_, _ = remove()
 					case 'a':
 						ever[nv] = true
 						add(nv)
 						nv++
 					case 'c':
+						closed = true
 						closeFn()
 					}
 				}
 				fin <- struct{}{}
 			}()
-			<-fin
-			<-fin
+			// a blocking iterator on a container that is never closed is released
+			// through its context once nothing else moves
+			vs.Quiesce()
 			cancel()
+			<-fin
+			<-fin
 		}
 		check := func(e *vs.End) (string, string) {
 			if len(e.Panics) > 0 {
@@ -283,6 +298,14 @@ func churn(s src, pre int, script string) vs.Scenario {
 				if !ever[v] {
 					return "invented-value", fmt.Sprintf("%s yielded %d which was never in the container (%v)", s.name, v, rec.got)
 				}
+			}
+			// Under concurrent removals the statement promises no completeness (the
+			// real Queue iterator whose cursor element is removed while the queue runs
+			// empty never sees later additions), so omissions are not judged here. What
+			// it does fix is how a blocking iterator finishes: io.EOF once the
+			// container is closed, or its context's error - never io.EOF while open.
+			if s.blocking && rec.done && errors.Is(rec.err, io.EOF) && !closed {
+				return "eof-although-open", fmt.Sprintf("%s (pre=%d, script %s) finished with io.EOF but the container was never closed (yielded %v)", s.name, pre, script, rec.got)
 			}
 			if t, d := endTag(e); t != "" {
 				return "not-released-by-close/" + t, d
@@ -308,13 +331,16 @@ func build(tier string) ([]runner.Instance, time.Duration) {
 					rels := []string{"close"}
 					if s.blocking {
 						rels = append(rels, "cancel")
+						if a > 0 {
+							rels = append(rels, "close-now")
+						}
 					}
 					for _, rel := range rels {
 						out = append(out, runner.Instance{Group: "grow/" + s.name, Name: fmt.Sprintf("grow/%s/pre=%d,adds=%d,iters=%d,release=%s", s.name, pre, a, n, rel), Bound: bound, Scenario: grow(s, pre, a, n, rel)})
 					}
 				}
 			}
-			for _, script := range []string{"rc", "rac", "rrac", "arc", "c", "rarc"} {
+			for _, script := range []string{"rc", "rac", "rrac", "arc", "c", "rarc", "r", "ra", "rra", "rar"} {
 				out = append(out, runner.Instance{Group: "churn/" + s.name, Name: fmt.Sprintf("churn/%s/pre=%d,%s", s.name, pre, script), Bound: churnBound, Scenario: churn(s, pre, script)})
 			}
 		}
